@@ -138,6 +138,41 @@ def newIdF : Nat → Nat → List Nat → Nat
 /-- `_get_new_id`: start at the number of ids handed out or registered so far -/
 def newId (ids : List Nat) : Nat := newIdF (ids.length + 1) ids.length ids
 
+/-! ## initial placement (`DictToInitStateMapper._map_jobs`, `_get_buffer_state`) -/
+
+/-- `tuple(dict.fromkeys(l))`: the first occurrences, in order -/
+def firstOccs : List Nat → List Nat
+  | [] => []
+  | x :: xs => x :: (firstOccs xs).filter (· != x)
+
+/-- a job starts in the input buffer (`instance.buffers[0]`) unless its own entry names a location -/
+def jobLocation (inputId : Nat) (spec : Option Nat) : Nat := spec.getD inputId
+
+/-- `jobs_in_buffer`: the jobs located in buffer `b`, in job order; a job is its number and the
+location its `init_state` entry names (if any) -/
+def locatedIn (inputId : Nat) (jobs : List (Nat × Option Nat)) (b : Nat) : List Nat :=
+  (jobs.filter fun j => jobLocation inputId j.2 == b).map (·.1)
+
+/-- the store of buffer `b`: the listed jobs in the order written, then the jobs located there that
+are not listed; without a listing the located jobs in job order -/
+def initStore (inputId : Nat) (jobs : List (Nat × Option Nat)) (b : Nat) (listed : Option (List Nat)) : List Nat :=
+  match listed with
+  | none => locatedIn inputId jobs b
+  | some l => firstOccs (l ++ locatedIn inputId jobs b)
+
+/-! ## outage entries (`_map_spec_dict_to_outage`) -/
+
+/-- the component names an entry may carry to apply to machine `id` -/
+def machineOutageNames (id : Text) : List Text :=
+  ["m", "machine", "Machine", "MACHINE"].map String.toList ++ [id]
+
+/-- ... to apply to every transport -/
+def transportOutageNames : List Text := ["t", "transport", "Transport", "TRANSPORT"].map String.toList
+
+/-- the entries of the `outages:` section that apply to a component, in document order -/
+def outagesFor {α : Type} (names : List Text) (entries : List (Text × α)) : List α :=
+  (entries.filter fun e => names.contains e.1).map (·.2)
+
 /-! ## rendering (what "written in the specification" means) -/
 
 def renderNat (n : Nat) : Text := Nat.toDigits 10 n
